@@ -79,6 +79,8 @@ def rebuild_facts(p):
             q = numpoly.polynomial(p.todict(), names=p.names)
             if not (core.canon_elements(p) == core.canon_elements(q) and tuple(q.shape) == tuple(p.shape) and q.names == p.names):
                 bad.append("rebuild from todict() differs")
+            elif q.dtype != p.dtype:
+                bad.append(f"rebuild from todict() differs: dtype {p.dtype} vs {q.dtype}")
     except Exception as exc:  # noqa: BLE001
         bad.append(f"rebuild raised {type(exc).__name__}: {exc}")
     return bad
@@ -123,6 +125,11 @@ def run(report, tier, seed):
             a, b = b, a
         if not isinstance(a, numpoly.ndpoly):
             continue
+        if rng.random() < 0.2:
+            # coefficient dtypes numpy would not choose for a builtin number (values are small: no wrap-around)
+            d = rng.choice(["int8", "int16", "int32", "uint32", "float32", "uint8"])
+            if not (d.startswith("u") and any(numpy.any(numpy.asarray(c) < 0) for c in a.coefficients)):
+                a = a.astype(d)
         name, fn = rng.choice(OPS)
         try:
             res = fn(rng, a, b)
